@@ -30,7 +30,7 @@ def exhaustive(tier):
 
 def required(tier):
     return ["B:n<1000", "B:n%1000==0", "B:n>=10^7", "B:split_sum_differs", "B:n>=2^53", "TS:no_exponent", "TS:exponent", "A:anchor",
-            "tick_digits>=10", "leading_zeros"]
+            "tick_digits>=10", "leading_zeros", "chart_without_anchors_after_chart_with_anchors"]
 
 
 def shards(tier, seed):
@@ -219,11 +219,16 @@ def run_shard(shard, rec, tier, seed):
                 rec.cls("B:n>=2^53")
         judge_tempos(rec, ns, shard["name"])
     elif k == "ts":
-        truth = ts_case(rng, shard["count"])
-        case = gen.render_truth(truth)
-        judge_model(rec, case, {"TS:no_exponent": sum(1 for x in truth["timesigs"] if x[2] is None),
-                                "TS:exponent": sum(1 for x in truth["timesigs"] if x[2] is not None),
-                                "A:anchor": len(truth["anchors"])})
+        # three charts one after the other: many anchors, other anchors, no anchors (each chart's events are its own lines')
+        for part, cnt in enumerate((shard["count"], shard["count"] // 3, 60)):
+            truth = ts_case(rng, cnt)
+            if part == 2:
+                truth["anchors"] = []
+                rec.cls("chart_without_anchors_after_chart_with_anchors")
+            case = gen.render_truth(truth)
+            judge_model(rec, case, {"TS:no_exponent": sum(1 for x in truth["timesigs"] if x[2] is None),
+                                    "TS:exponent": sum(1 for x in truth["timesigs"] if x[2] is not None),
+                                    "A:anchor": len(truth["anchors"])})
     elif k == "digits":
         case = digits_case(rng, shard["count"])
         judge_model(rec, case, {"tick_digits>=10": sum(1 for x in case["truth"]["tempos"] if x[0] >= 10**9),
